@@ -298,6 +298,73 @@ def st_forms(be, hiN, forms):
          'ca': gen.st_coef(nonzero=True), 'cb': gen.st_coef(nonzero=True)}))
 
 
+def f_operand_history(case):
+    """one Pauli object A kept by the caller: multiplied through every route (with a Pauli, a monomial, a polynomial, on either side), changed in
+    place (rotate_by / transform_by / direct phase write), multiplied again - every product must use A's *current* value."""
+    be, N = case['be'], case['N']
+    Bk = B.backend(be)
+    pm = Bk.mods()['p']
+    l, k = ref.parse(case['a'])
+    k = int(k)
+    A = Bk.pauli(l, k)
+    nprod = nedit = 0
+    for i, stp in enumerate(case['steps']):
+        t = stp['t']
+        if t == 'rotate':
+            gl, gk = ref.parse(stp['gen'])
+            A.rotate_by(Bk.pauli(gl, gk)); nedit += 1
+            ll, kk = ref.rotate_rule(l[None, :], np.array([k]), gl, gk)
+            l, k = ll[0], int(kk[0])
+        elif t == 'transform':
+            c = ref.RefClifford.from_rows(stp['rows'])
+            A.transform_by(Bk.cmap(c)); nedit += 1
+            ll, kk = c.apply(l[None, :], np.array([k]))
+            l, k = ll[0], int(kk[0])
+        elif t == 'view':
+            A.as_polynomial()        # a polynomial view of A is taken and dropped
+        else:
+            lb, kb = ref.parse(stp['b'])
+            cb = gen.cplx(stp['c'])
+            form = stp['form']
+            if form == 'pauli' or be == 'torch' and form == 'monomial':
+                Bb, fb = Bk.pauli(lb, kb), 1.0
+            elif form == 'monomial':
+                Bb, fb = pm.PauliMonomial(B.np_g(lb), int(kb)).set_c(cb), cb
+            else:
+                Bb, fb = Bk.poly(lb[None, :], [kb], [cb]), cb
+            R = (A @ Bb) if stp['side'] == 'l' else (Bb @ A)
+            el, ek = ref.pmul(l, k, lb, kb) if stp['side'] == 'l' else ref.pmul(lb, kb, l, k)
+            want = fb * (1j ** int(ek))
+            if type(R).__name__ in ('Pauli', 'PauliMonomial'):
+                rl, rk = Bk.read_pauli(R)
+                got = complex(getattr(R, 'c', 1.0)) * 1j ** rk
+            else:
+                rl2, rk2 = Bk.read_list(R)
+                check(rl2.shape[0] == 1, 'product of two single operators has %d terms' % rl2.shape[0], 'history-terms')
+                rl, got = rl2[0], complex(Bk.num(R.cs)[0]) * 1j ** int(rk2[0])
+            nprod += 1
+            check((rl == el).all() and abs(got - want) < 1e-6, 'step %d: %s with A=%s (after %d in-place changes, %d earlier products) and %s %s: got %s x %r, expected %s x %r' % (
+                i, 'A @ B' if stp['side'] == 'l' else 'B @ A', ref.show(l, k), nedit, nprod - 1, form, ref.show(lb, kb), ref.show(rl, 0), got, ref.show(el, 0), want), 'history-product')
+        la, ka = Bk.read_pauli(A)
+        check((la == l).all() and ka == k, 'step %d (%s): A is %s expected %s' % (i, t, ref.show(la, ka), ref.show(l, k)), 'history-operand')
+    ts = [x['t'] for x in case['steps']]
+    prods = [i for i, x in enumerate(ts) if x == 'prod']
+    nt = len(prods) >= 2 and any(x in ('rotate', 'transform') for x in ts[prods[0]:prods[-1]])
+    return {'nt': nt, 'labels': ['N=%d' % N, 'products=%d' % min(nprod, 5), 'edits=%d' % min(nedit, 5)]}
+
+
+def st_operand_history(be, hiN):
+    def inner(N):
+        prod = st.fixed_dictionaries({'t': st.just('prod'), 'b': gen.st_pauli(N), 'c': gen.st_coef(nonzero=True), 'form': st.sampled_from(['pauli', 'monomial', 'poly']),
+                                      'side': st.sampled_from(['l', 'l', 'r'])})
+        step = st.one_of(prod, prod, st.just({'t': 'view'}), st.fixed_dictionaries({'t': st.just('rotate'), 'gen': gen.st_herm(N, nonidentity=True)}),
+                         st.fixed_dictionaries({'t': st.just('transform'), 'rows': gen.st_clifford_rows(N)}))
+        return st.fixed_dictionaries({'be': st.just(be), 'N': st.just(N), 'a': gen.st_pauli(N), 'steps': st.lists(step, min_size=2, max_size=8)})
+    return st.integers(1, hiN).flatmap(inner)
+
+
+FACETS.append(Facet('np/operand-histories', f_operand_history, strategy=lambda t: st_operand_history('np', 3), examples={'quick': 1200, 'thorough': 50000}, shards={'quick': 2, 'thorough': 8}))
+FACETS.append(Facet('torch/operand-histories', f_operand_history, strategy=lambda t: st_operand_history('torch', 3), examples={'quick': 300, 'thorough': 10000}, shards={'quick': 1, 'thorough': 4}, backend='torch'))
 FACETS.append(Facet('np/operand-forms', f_forms, strategy=lambda t: st_forms('np', 4, ['pauli', 'monomial', 'poly1']), examples={'quick': 1500, 'thorough': 60000}, shards={'quick': 1, 'thorough': 4}))
 FACETS.append(Facet('torch/operand-forms', f_forms, strategy=lambda t: st_forms('torch', 3, ['pauli', 'poly1']), examples={'quick': 800, 'thorough': 8000}, backend='torch'))
 
